@@ -1,17 +1,53 @@
 #!/bin/bash
 # usage: run.sh <PROPERTY> <repo-dir>   -- bounded concrete witness search against the real crate (DESIGN 1.5). Prints `WITNESS <text>` lines.
+# The harness crate is named after the hash of <repo-dir>, so concurrent runs against different copies never execute each other's binary;
+# artifacts built for a scratch copy (anything but /repo) are deleted again after the run.
 set -u
 PID=$1; REPO=$(readlink -f $2)
 HERE=$(dirname $(readlink -f $0)); VERIF=$(dirname $HERE)
 H=$(echo "$REPO" | md5sum | cut -c1-10)
 D=$VERIF/build/replay/$H; mkdir -p $D/src
-sed "s#@REPO@#$REPO#" $HERE/Cargo.toml.tmpl > $D/Cargo.toml
+sed "s#@REPO@#$REPO#; s#^name = \"rp_replay\"#name = \"rp_replay_$H\"#" $HERE/Cargo.toml.tmpl > $D/Cargo.toml
 cp $HERE/src/*.rs $D/src/; cp /repo/Cargo.lock $D/Cargo.lock 2>/dev/null
 export CARGO_TARGET_DIR=$VERIF/build/replay_target CARGO_NET_OFFLINE=true CARGO_INCREMENTAL=0
 rc=0
-( cd $D && cargo run --offline -q -- $PID "$REPO" 2>$D/err_main.log ) || rc=$?
+run_set() { # $1 = log name, rest = cargo feature args
+  local log=$1; shift
+  ( cd $D && cargo build --offline -q --message-format=json "$@" 2>$D/err_$log.log >$D/build_$log.json ) || return 1
+  local exe
+  exe=$(python3 - $D/build_$log.json rp_replay_$H <<'PY'
+import json,sys
+exe=""
+for l in open(sys.argv[1]):
+    try: m=json.loads(l)
+    except Exception: continue
+    if m.get("reason")=="compiler-artifact" and m.get("target",{}).get("name")==sys.argv[2] and m.get("executable"): exe=m["executable"]
+print(exe)
+PY
+)
+  [ -n "$exe" ] && [ -x "$exe" ] || return 1
+  # run a private copy: a later build of the other feature set replaces the file in the target directory
+  cp "$exe" $D/finder_$log && $D/finder_$log $PID "$REPO" 2>>$D/err_$log.log
+}
+run_set main || rc=$?
 case $PID in C02|C03|C04|C05|C06|C07|C08|C09|C11|C12|C13|C14|C15|C16)
-  ( cd $D && cargo run --offline -q --no-default-features --features v3pub_set -- $PID "$REPO" 2>$D/err_v3.log ) || rc=$? ;;
+  run_set v3 --no-default-features --features v3pub_set || rc=$? ;;
 esac
 if [ $rc -ne 0 ]; then echo "REPLAY-BUILD-OR-RUN-FAILED rc=$rc"; grep -E "^error" -A6 $D/err_main.log $D/err_v3.log 2>/dev/null | head -30; fi
+if [ "$REPO" != "/repo" ]; then
+  # scratch copy: remove what was built for it (harness + the path dependency at that path)
+  python3 - $D rp_replay_$H "$REPO" <<'PY'
+import json,sys,os,glob
+d,name,repo=sys.argv[1:4]
+for f in glob.glob(os.path.join(d,"build_*.json")):
+    for l in open(f):
+        try: m=json.loads(l)
+        except Exception: continue
+        if m.get("reason")!="compiler-artifact": continue
+        if m.get("target",{}).get("name")==name or m.get("manifest_path","").startswith(repo+"/"):
+            for fn in m.get("filenames",[])+([m["executable"]] if m.get("executable") else []):
+                try: os.remove(fn)
+                except OSError: pass
+PY
+fi
 exit 0
